@@ -58,6 +58,53 @@ def _loops(ctx, b):
     return out
 
 
+class Visit:
+    """one traversal of a host collection in Sim::step: an explicit `for` loop or `<iter>.for_each(closure)`"""
+    def __init__(self, ctx, b, kind, comp, site, **kw):
+        self.ctx, self.b, self.kind, self.comp, self.site = ctx, b, kind, comp, site
+        self.__dict__.update(kw)
+
+    def per_iteration(self, pat):
+        """(min, max) number of calls matching pat on a path through one iteration"""
+        if self.kind == "loop":
+            hit = [bb for bb, t in self.b.calls(pat)]
+            return path_counts(self.b, self.some[1], lambda x: x in hit, stop_blocks=[self.nb], only_stop=True) if self.some else None
+        lo, hi = 0, 0
+        for cid in self.closures:
+            cb = self.ctx.w.bodies.get(cid)
+            if cb is None:
+                return None
+            hit = [bb for bb, t in cb.calls(pat)]
+            pc = path_counts(cb, 0, lambda x: x in hit)
+            if pc is None:
+                return None
+            lo, hi = lo + pc[0], hi + pc[1]
+        return (lo, hi)
+
+    def calls(self, pat):
+        """call sites matching pat inside one iteration: [(body, bb, term)]"""
+        if self.kind == "loop":
+            blocks = self.b.reachable(self.some[1], stop=[self.nb]) if self.some else set()
+            return [(self.b, bb, t) for bb, t in self.b.calls(pat) if bb in blocks]
+        out = []
+        for cid in self.closures:
+            for fb in self.ctx.w.family(cid):
+                out += [(fb, bb, t) for bb, t in fb.calls(pat)]
+        return out
+
+
+def visits(ctx, b, pl):
+    out = []
+    for ib, nb, some, at, t in _loops(ctx, b):
+        out.append(Visit(ctx, b, "loop", loop_component(b, t, pl), t["s"], ib=ib, nb=nb, some=some))
+    for bb, t in b.calls(re.compile(r"^std::iter::Iterator::for_each$|Iterator>::for_each$")):
+        comp = loop_component(b, t, pl)
+        if comp is None:
+            continue
+        out.append(Visit(ctx, b, "for_each", comp, t["s"], closures=closure_args(b, t)))
+    return out
+
+
 def r1(ctx):
     R = "C05-R1"
     ctx.rule(R, "Sim::step: one Iterator::partition over rts.iter_mut(); loop A iterates component 0, loop B component 1; in each loop "
@@ -73,13 +120,13 @@ def r1(ctx):
     if not parts:
         return
     pl = parts[0][1]["d"]["l"]
-    loops = _loops(ctx, b)
-    wt = [bb for bb, t in b.calls("turmoil::world::World::tick")]
+    loops = visits(ctx, b, pl)
     comps = {}
-    for ib, nb, some, at, t in loops:
-        comp = loop_component(b, t, pl)
-        comps[ib] = comp
-        pc = path_counts(b, some[1], lambda x: x in wt, stop_blocks=[nb], only_stop=True) if some else None
+    for n_, v in enumerate(loops):
+        comp = v.comp
+        comps[n_] = comp
+        pc = v.per_iteration("turmoil::world::World::tick")
+        t = {"s": v.site}
         ctx.inst(R, f"step:loop-component-{comp}:ticks-once", comp in (0, 1) and pc == (1, 1), t["s"],
                  f"loop over partition component {comp}: World::tick count per iteration {pc}" +
                  ("" if comp in (0, 1) and pc == (1, 1) else " - every registered host must be ticked exactly once per step; this loop's domain is not a partition component or a path ticks it 0/2 times"))
@@ -120,6 +167,8 @@ def loop_component(b, t, pl):
         for bb2, i2, s2 in b.defs().get(p["l"], []):
             if i2 != "term" and s2["r"]["k"] in ("use", "ref") and not s2["p"].get("p"):
                 work.append(op_place(s2["r"].get("o")) or s2["r"].get("p"))
+            elif i2 == "term" and s2["k"] == "call" and re.search(r"IntoIterator>::into_iter$|::into_iter$|::iter$|::iter_mut$|::drain$", s2.get("f", "")) and s2["args"]:
+                work.append(op_place(s2["args"][0]))
     return comp
 
 
@@ -139,9 +188,10 @@ def r2(ctx):
     for bb, t in b.calls("turmoil::top::Topology::tick_by"):
         sites.append(("tick_by", t["s"], sl.atoms(b, t["args"][1])))
     n = 0
-    for bb, t in b.calls("turmoil::world::World::tick"):
-        sites.append((f"World::tick#{n}", t["s"], sl.atoms(b, t["args"][2])))
-        n += 1
+    for fb in ctx.w.family(b.id):
+        for bb, t in fb.calls("turmoil::world::World::tick"):
+            sites.append((f"World::tick#{n}", t["s"], sl.atoms(fb, t["args"][2])))
+            n += 1
     for bb, t in b.calls(re.compile(r"Duration as std::ops::AddAssign>::add_assign$")):
         if "field:turmoil::sim::Sim::elapsed" in sl.atoms(b, t["args"][0]):
             sites.append(("elapsed+=", t["s"], sl.atoms(b, t["args"][1])))
